@@ -681,6 +681,50 @@ def product_own_variable_case(dependent, what):
     return Case(cname, body, goals, family="product_fix_own_variable", params=dict(dependent=dependent, what=what), **_BOUNDS)
 
 
+def product_two_variable_factor_case(order, what):
+    """(A[t,s] x (I_t x I_s))(t=vt, s=vs) with the keyword arguments in either order denotes A(vt,vs) x {(vt,vs)}:
+    the Point replacing the fixed factor must be laid out in the factor's SPACE order, not in keyword order"""
+    cname = "product_fix_two_variable_factor/kwargs_%s/%s" % (order, what)
+
+    def body(env):
+        L = env.L
+        a = circle_ts(env, tag="A")
+        b = SH.product(SH.interval(env, tag="B", var="t"), SH.interval(env, tag="Bs", var="s"))
+        sh = SH.product(a, b)
+        ot, et, t0 = _value(env, "t", "0d")
+        os_, es, s0 = _value(env, "s", "0d")
+        prm = {"t": [et], "s": [es]}
+        env.assume(a.oset.positive(prm, L))
+        env.assume(b.oset.positive({}, L))
+        D2 = sh.dom(**({"t": ot, "s": os_} if order == "ts" else {"s": os_, "t": ot}))
+        out = dict(space=list(D2.space.keys()), nv=set(D2.necessary_variables), et=et, es=es, a=a, prm=prm)
+        if what == "contains":
+            q = env.tensor("q_x", (1, 2))
+            pts = Points.from_coordinates({"x": q, "t": t0.reshape(1, 1).clone(), "s": s0.reshape(1, 1).clone()})
+            out["res"] = D2._contains(pts)
+            out["want"] = a.oset.closure(SH.elems(env, q), prm, L, 0)
+        else:
+            pts = D2.sample_random_uniform(n=1)
+            out["names"] = list(pts.space.keys())
+            out["pts"] = pts.as_tensor
+        return out
+
+    def goals(o, L, env):
+        yield "space_is_product_space", o["space"] == ["x", "t", "s"]
+        yield "no_free_variables_left", o["nv"] == set()
+        if what == "contains":
+            yield "member_iff_first_factor_member", L.Iff(o["res"][0][0], o["want"])
+        else:
+            yield "sample_space", o["names"] == ["x", "t", "s"]
+            if o["names"] == ["x", "t", "s"]:
+                p = o["pts"][0]
+                yield "sample_t_is_fixed_value", req(L, p[2], o["et"])
+                yield "sample_s_is_fixed_value", req(L, p[3], o["es"])
+                yield "sample_x_in_first_factor", o["a"].oset.closure(p[:2], o["prm"], L, 0)
+
+    return Case(cname, body, goals, family="product_fix_two_variable_factor", params=dict(order=order, what=what), **_BOUNDS)
+
+
 # --------------------------------------------------------------------------
 
 
@@ -769,6 +813,9 @@ def cases(tier):
     for dependent in (False, True):
         for what in ("structure", "contains", "sample"):
             cs.append(product_own_variable_case(dependent, what))
+    for order in ("ts", "st"):
+        for what in ("contains", "sample"):
+            cs.append(product_two_variable_factor_case(order, what))
     if quick:
         for c in cs:
             c.budget_s = 60
